@@ -339,8 +339,10 @@ def working_lists_hold_local_tensors(ctx, rep, rule: str) -> None:
         apps = [c for c in A.calls(fi.node, nested=True) if isinstance(c.func, ast.Attribute) and c.func.attr == "append" and len(c.args) == 1]
         elts = [c.args[0] for c in apps]
         for e in elts:
-            n += 1
             ex = ast.parse(A.expanded(repo.owner(e).node if repo.owner(e) is not None else fi.node, e), mode="eval").body
+            if "state[" not in ast.unparse(ex) and "state[" not in ast.unparse(e):
+                continue  # not an element taken from the optimizer state (a size, a byte count, …)
+            n += 1
             ok = isinstance(ex, ast.Call) and isinstance(ex.func, ast.Attribute) and ex.func.attr == "get_tensor" and len(ex.args) + len(ex.keywords) == 1
             rep.ob(rule, f"working-list-holds-local-tensor:{short(q)}", ok, fi.loc(e), f"the {what} working list receives `{ast.unparse(ex)[:80]}`; documented: block_info.get_tensor(<the state entry>)", sample=True)
     rep.floor(rule, "elements appended to the per-block working lists", n, 3)
